@@ -42,7 +42,7 @@ mod verif_replay_sendio {
         format!(
             r###"<scxml xmlns="http://www.w3.org/2005/07/scxml" initial="s0" version="1.0" datamodel="rfsm-expression">
  <state id="s0">
-  <onentry><send {} event="hello"/><send event="timeout" delay="2s"/></onentry>
+  <onentry><send {} event="hello"/><send event="timeout" delay="5s"/></onentry>
   <transition event="error.communication" target="pass"/>
   <transition event="error.execution" target="exec"/>
   <transition event="hello" target="got"/>
@@ -102,7 +102,7 @@ mod verif_replay_sendio {
         format!(
             r###"<scxml xmlns="http://www.w3.org/2005/07/scxml" initial="s0" version="1.0" datamodel="rfsm-expression">
  <state id="s0">
-  <onentry><send event="timeout" delay="2s"/></onentry>
+  <onentry><send event="timeout" delay="5s"/></onentry>
   <invoke type="scxml" id="kid"><content><scxml xmlns="http://www.w3.org/2005/07/scxml" initial="c0" version="1.0" datamodel="rfsm-expression"><state id="c0"><onentry><send {} event="child.msg"/></onentry><transition event="child.msg" target="c1"/></state><state id="c1"><onentry><send target="#_parent" event="child.echo"/></onentry></state></scxml></content></invoke>
   <transition event="child.msg" target="delivered"/>
   <transition event="child.echo" target="misrouted"/>
@@ -136,7 +136,7 @@ mod verif_replay_sendio {
             let doc = format!(
                 r###"<scxml xmlns="http://www.w3.org/2005/07/scxml" initial="s0" version="1.0" datamodel="rfsm-expression">
  <state id="s0">
-  <onentry><send event="timeout" delay="2s"/></onentry>
+  <onentry><send event="timeout" delay="5s"/></onentry>
   <invoke type="scxml" id="kid"><content><scxml xmlns="http://www.w3.org/2005/07/scxml" initial="c0" version="1.0" datamodel="rfsm-expression"><state id="c0"><onentry><send target="#_parent" event="child.question"/></onentry><transition event="answer" target="c1"/></state><state id="c1"><onentry><send target="#_parent" event="child.thanks"/></onentry></state></scxml></content></invoke>
   <transition event="child.question"><send event="answer" targetexpr="_event.origin" {}/></transition>
   <transition event="answer" target="misrouted"/>
